@@ -226,6 +226,8 @@ def c07(ctx):
 
 # ---------------------------------------------------------------- C06
 class DebugRender(TypeRender):
+    explicit_own = False      # (the #[derive(Debug)] twin is a textual copy of the item: no attribute the configuration does not have)
+
     def __init__(self, idx, cfg, prop, **kw):
         super().__init__(idx, cfg, prop, **kw)
         from render import NAME_POOLS, pick
@@ -2055,7 +2057,12 @@ def hostile_item(h, n):
     extra_named = ''
     extra_tuple = ''
     helper = ''
-    if pos == 'parampair':
+    if pos == 'fieldtype':
+        if ident in ('Tx', 'Va', 'Vb', 'Vc', 'u8', 'u16') or not _re.match(r'^[A-Za-z_][A-Za-z0-9_]*$', ident) or ident == '_':
+            return None
+        helper += ('#[allow(non_camel_case_types)] #[derive(Debug, Clone, Copy, PartialEq, Eq, PartialOrd, Ord, Hash, Default)] pub struct %s { pub v: u8 } ' % ident)      # (a braced struct: a name in the type namespace only)
+        extra_named, extra_tuple = ', xt: %s' % ident, ', %s' % ident
+    elif pos == 'parampair':
         a, b = (h['id'], h['id2']) if h['order'] == 'taken_first' else (h['id2'], h['id'])
         sorts = h['sorts']
         decl, fn_, ft_ = [], [], []
